@@ -3,9 +3,9 @@
 use crate::case::{GenInfo, StreamCase};
 use crate::core::{panic_site, guarded, run_seed, RunResult, Stats, Tier, Violation};
 use crate::faults::{Confine, Medium};
-use crate::model::{cut_all, cut_at, read_res, Cut, Res};
+use crate::model::{cut_all_lim, cut_at_lim, read_res, Cut, Res};
 use crate::rng::{Fnv, Rng};
-use crate::scen_common::{build, draw_capacities, draw_filter, BuildOpts};
+use crate::scen_common::{build, draw_capacities, draw_filter, draw_tight_capacities, BuildOpts};
 use crate::source::{Core, Dec, Frag, Policy, ScriptedRead};
 use dlt_core::parse::dlt_message;
 use dlt_core::read::{read_message, DltMessageReader};
@@ -53,8 +53,18 @@ pub fn generate(seed: u64, run: u64, _tier: Tier, st: &mut Stats) -> (StreamCase
         };
         policy.eof_at = Some(at);
     }
-    let (buf_cap, msg_max) = draw_capacities(&mut rs, &b.medium.bytes, b.storage, 4);
+    let (mut buf_cap, mut msg_max) = draw_capacities(&mut rs, &b.medium.bytes, b.storage, 4);
     let filter = draw_filter(&mut rw, b.swarm.id_alphabet, 30);
+    // drawn from a fork of their own so that the other draws of the run do not shift
+    let mut rt = Rng::fork(s, 4);
+    let mut tight_max = false;
+    if rt.chance(1, 12) {
+        if let Some((b2, m2)) = draw_tight_capacities(&mut rt, &b.medium.bytes, b.storage) {
+            buf_cap = b2;
+            msg_max = m2;
+            tight_max = true;
+        }
+    }
     let case = StreamCase {
         prop: "C07".into(),
         mode: mode.into(),
@@ -63,6 +73,7 @@ pub fn generate(seed: u64, run: u64, _tier: Tier, st: &mut Stats) -> (StreamCase
         filter,
         buf_cap,
         msg_max,
+        tight_max,
         gen: Some(GenInfo { policy, sched_seed: rs.next_u64(), co_policies: vec![] }),
         notes: b.medium.notes.clone(),
         seed,
@@ -109,7 +120,7 @@ pub fn execute(case: &StreamCase, st: &mut Stats) -> Exec {
         DltMessageReader::with_capacity(case.buf_cap, case.msg_max, src, case.storage)
     };
 
-    let (full_pieces, _full_term) = cut_all(&data, case.storage);
+    let (full_pieces, _full_term) = cut_all_lim(&data, case.storage, case.msg_max);
     let max_calls = full_pieces.len() + 1;
     let mut results: Vec<Res> = vec![];
     let mut cutter_pos = 0usize;
@@ -131,9 +142,9 @@ pub fn execute(case: &StreamCase, st: &mut Stats) -> Exec {
             stop_hard = true;
             break;
         }
-        match cut_at(&data, cutter_pos, case.storage) {
+        match cut_at_lim(&data, cutter_pos, case.storage, case.msg_max) {
             Cut::Piece(n) => cutter_pos += n,
-            Cut::ShortLen(_) => {
+            Cut::ShortLen(_) | Cut::Oversize(_) => {
                 stop_hard = true;
                 break;
             }
@@ -162,7 +173,7 @@ pub fn execute(case: &StreamCase, st: &mut Stats) -> Exec {
     let core = core.borrow();
     let failed = core.failed.is_some();
     let eff: &[u8] = if failed || core.eof_forced { &data[..core.pos] } else { &data[..] };
-    let (pieces, term) = cut_all(eff, case.storage);
+    let (pieces, term) = cut_all_lim(eff, case.storage, case.msg_max);
 
     // ---- oracle -------------------------------------------------------------------------------
     let mut v = vec![];
@@ -234,6 +245,7 @@ pub fn execute(case: &StreamCase, st: &mut Stats) -> Exec {
         Cut::Eos(_) => st.inc("term_partial_header"),
         Cut::Short { .. } => st.inc("term_short_record"),
         Cut::ShortLen(_) => st.inc("term_shortlen"),
+        Cut::Oversize(_) => st.inc("term_oversize"),
         Cut::Piece(_) => {}
     }
     st.add("source_calls", core.stats.calls);
@@ -311,6 +323,9 @@ pub fn one_run(seed: u64, run: u64, tier: Tier, st: &mut Stats) -> (RunResult, O
     }
     if ex.eof_forced {
         st.inc("runs_with_early_eof");
+    }
+    if case.tight_max {
+        st.inc("runs_with_tight_message_max_len");
     }
     let failing = if ex.violations.is_empty() {
         None
